@@ -12,8 +12,13 @@ RULE = ("every catalogue name (live catalog.py) x data widths {1,3,4,8,16,crc_wi
         "_reflect; exhaustive parameter sets for crc_width<=3 (all polynomials, inits, flags) x data widths 1..3; seeded random "
         "parameter sets (crc_width<=24 quick, <=82 thorough, even polynomials included); Processor simulated in the real "
         "simulator with random start/valid/data patterns (crc and match_detected read before the first and after every edge) "
-        "vs Crc.hw_trace; codeword tests (message + trailer in transmission order; correct, single-bit-corrupted, random "
-        "trailers) with the expected match verdict; the published table (committed JSON) vs the table embedded in "
+        "vs Crc.hw_trace, with fixed restart scenarios (start together with valid / start alone after the register left "
+        "its reset value) and CRC-64/CRC-82 designs in the quick tier; Processor.__init__ attributes; codeword tests "
+        "(message + trailer in transmission order; correct, single-bit-corrupted, random and, for even polynomials, "
+        "kernel trailers) under schedules with junk before the start, start alone / with the first word / no start, and "
+        "idle gaps, with the match verdict of the property text computed from the observation; constructors through "
+        "algo(d), Parameters(algo, d), .algorithm round trip and the default data width; TypeError cases; the RTLIL "
+        "emitted for small Processors run under the RTLIL semantics of C04 against the simulator; the published table (committed JSON) vs the table embedded in "
         "Model/Crc.v vs the live catalogue vs compute/residue/williams; malformed inputs (out-of-range parameters, widths "
         "<= 0, out-of-range words) compared on the exception. non-trivial = not an error answer and some word/parameter non-zero")
 MODELLED = ("Algorithm/Parameters range checks, Parameters.compute/residue/_matrices/_reflect and Processor.elaborate are "
@@ -24,6 +29,7 @@ MODELLED = ("Algorithm/Parameters range checks, Parameters.compute/residue/_matr
 ASSUMPTIONS = ["data words presented to the hardware fit the data_width-bit `data` signal (the simulator truncates otherwise)",
                "words are non-negative Python ints (negative words raise ValueError in compute; modelled as out of range)"]
 SHARD = 250
+TRUSTED_EXTRA = ["coq/Model/RtlilSem.v (RTLIL semantics shared with C04) and harness/rtlil_read.py, for the `rtl` cases only"]
 
 DATA = os.path.join(VERIF, "data", "crc_reveng.json")
 CHECK_MSG = list(b"123456789")
@@ -121,8 +127,9 @@ def gen_cases(tier, seed):
                 cases.append({"k": "compute", "a": a, "d": d, "ws": ws, "src": name})
                 if rng.random() < (1.0 if thorough else 0.35):
                     cases.append({"k": "williams", "a": a, "d": d, "ws": ws, "src": name})
-        cases.append({"k": "compute", "a": a, "d": 8, "ws": CHECK_MSG, "src": name})
-        cases.append({"k": "residue", "a": a, "src": name})
+        cases.append({"k": "compute", "a": a, "d": 8, "ws": CHECK_MSG, "src": name, "via": rng.randrange(3),
+                      "dflt": rng.random() < 0.5})
+        cases.append({"k": "residue", "a": a, "d": rng.choice(_widths(a[0])), "src": name})
         if thorough or rng.random() < 0.3:
             cases.append({"k": "matrices", "a": a, "d": rng.choice(_widths(a[0])), "src": name})
     # exhaustive tiny parameter sets
@@ -136,7 +143,7 @@ def gen_cases(tier, seed):
                             ws = _msg(rng, d, rng.randrange(0, 5))
                             cases.append({"k": "compute", "a": a, "d": d, "ws": ws, "src": "tiny"})
                         if rng.random() < 0.25:
-                            cases.append({"k": "residue", "a": a, "src": "tiny"})
+                            cases.append({"k": "residue", "a": a, "d": rng.randrange(1, 5), "src": "tiny"})
                             cases.append({"k": "matrices", "a": a, "d": rng.randrange(1, 5), "src": "tiny"})
     # tiny hardware: all (start, valid) patterns of length 3 for a few tiny parameter sets
     for w, d in ((1, 1), (2, 1), (2, 3), (3, 2)):
@@ -153,12 +160,12 @@ def gen_cases(tier, seed):
         a = _rand_algo(rng, wmax)
         d = rng.choice(_widths(a[0]) + [rng.randrange(1, 2 * a[0] + 2)])
         ws = _msg(rng, d, rng.randrange(0, 13))
-        cases.append({"k": "compute", "a": a, "d": d, "ws": ws, "src": "rand"})
+        cases.append({"k": "compute", "a": a, "d": d, "ws": ws, "src": "rand", "via": rng.randrange(3)})
         r = rng.random()
         if r < 0.3:
             cases.append({"k": "williams", "a": a, "d": d, "ws": ws, "src": "rand"})
         elif r < 0.5:
-            cases.append({"k": "residue", "a": a, "src": "rand"})
+            cases.append({"k": "residue", "a": a, "d": d, "src": "rand"})
         elif r < 0.6:
             cases.append({"k": "matrices", "a": a, "d": d, "src": "rand"})
     for _ in range(2000 if thorough else 200):
@@ -180,7 +187,63 @@ def gen_cases(tier, seed):
         if d > 24:
             d = 24
         cases.append({"k": "hw", "a": a, "d": d, "cs": _cycles(rng, d, rng.randrange(1, 21)), "src": "rand"})
+    # fixed restart scenarios: n valid words (the register leaves its reset value), then start together with valid /
+    # start alone / start alone then idle, then more words; big catalogue designs in every tier
+    def restart_cases(a, d, src):
+        for kind in ("sv", "s", "s_idle", "sv_twice"):
+            cs = [[False, True, x] for x in _msg(rng, d, rng.randrange(1, 4))]
+            if kind == "sv":
+                cs += [[True, True, _msg(rng, d, 1)[0]]]
+            elif kind == "s":
+                cs += [[True, False, _msg(rng, d, 1)[0]]]
+            elif kind == "s_idle":
+                cs += [[True, False, 0], [False, False, _msg(rng, d, 1)[0]]]
+            else:
+                cs += [[True, True, _msg(rng, d, 1)[0]], [False, True, _msg(rng, d, 1)[0]], [True, True, _msg(rng, d, 1)[0]]]
+            cs += [[False, True, x] for x in _msg(rng, d, rng.randrange(1, 4))]
+            cases.append({"k": "hw", "a": a, "d": d, "cs": cs, "src": src, "sc": "restart_" + kind})
+    for name in HW_SUBSET[:17:2]:
+        restart_cases(live[name], rng.choice((1, 8, 3)), name)
+    for _ in range(40 if thorough else 10):
+        a = _rand_algo(rng, 16)
+        restart_cases(a, rng.choice(_widths(a[0])[:6]), "rand")
+    for name, d in (("CRC64_XZ", 8), ("CRC64_XZ", 64), ("CRC82_DARC", 8), ("CRC82_DARC", 1), ("CRC40_GSM", 40)):
+        cases.append({"k": "hw", "a": live[name], "d": d, "cs": _cycles(rng, d, 12), "src": name, "sc": "big"})
+        cases.append({"k": "proc", "a": live[name], "d": d, "src": name})
+    for name in HW_SUBSET[:17]:
+        cases.append({"k": "proc", "a": live[name], "d": rng.choice((1, 8, live[name][0])), "src": name})
+    for _ in range(200 if thorough else 40):
+        a = _rand_algo(rng, 24)
+        cases.append({"k": "proc", "a": a, "d": rng.choice(_widths(a[0])), "src": "rand"})
+    # the emitted RTLIL of small Processors under the RTLIL semantics (Model/RtlilSem.v) vs the simulator
+    rtl = [(live["CRC5_USB"], 3), (live["CRC8_AUTOSAR"], 8), (live["CRC16_ARC"], 8), (live["CRC3_GSM"], 1),
+           (live["CRC15_CAN"], 1), (live["CRC32_ISO_HDLC"], 8)]
+    for _ in range(60 if thorough else 12):
+        a = _rand_algo(rng, 12)
+        rtl.append((a, rng.choice(_widths(a[0])[:5])))
+    for n_, (a, d) in enumerate(rtl):
+        cases.append({"k": "rtl", "a": a, "d": min(d, 12), "cs": _cycles(rng, min(d, 12), rng.randrange(3, 9)),
+                      "src": "catalog" if n_ < 6 else "rand"})
+    for sub in ("proc_algo", "proc_int", "float_width", "float_dw", "str_poly"):
+        cases.append({"k": "typeerr", "sub": sub})
     # codewords: message ++ trailer
+    def kern_tx(a, d, k):
+        """xor pattern (word order) that moves the correct trailer to the second matching one (even polynomial)"""
+        w, pol, rin = a[0], a[1], a[3]
+        u = (1 << (w - 1)) + pol // 2
+        t = [(u >> (d * (k - 1 - i))) & ((1 << d) - 1) for i in range(k)]
+        return [_rev(x, d) for x in t] if rin else t
+
+    def schedule(d, n, plain):
+        """(pre cycles, start kind, gaps) for n words"""
+        if plain:
+            return [], 0, [0] * n
+        r = rng.random()
+        if r < 0.2:
+            return [], 2, [rng.choice((0, 0, 1, 2)) for _ in range(n)]          # no start at all, reset value
+        pre = _cycles(rng, d, rng.randrange(0, 5)) if rng.random() < 0.7 else []
+        return pre, (1 if rng.random() < 0.5 else 0), [rng.choice((0, 0, 0, 1, 3)) for _ in range(n)]
+
     def match_cases(a, src, reps):
         w = a[0]
         for d in sorted({1, w} | ({8} if w % 8 == 0 else set()) | ({w // 2} if w % 2 == 0 else set())
@@ -190,23 +253,31 @@ def gen_cases(tier, seed):
             if d == 1 and w > (82 if thorough else 33):
                 continue
             k = w // d
-            for rep in range(reps):
+            modes = ["ok", "bit", "rand"][:reps] + (["kern"] if a[1] % 2 == 0 else [])
+            for rep, mode in enumerate(modes):
                 ws = _msg(rng, d, rng.randrange(0, 7))
-                mode = ("ok", "bit", "rand")[rep % 3]
                 if mode == "ok":
                     tx = [0] * k
                 elif mode == "bit":
                     tx = [0] * k
                     tx[rng.randrange(k)] = 1 << rng.randrange(d)
+                elif mode == "kern":
+                    tx = kern_tx(a, d, k)
                 else:
                     tx = [rng.randrange(1 << d) for _ in range(k)]
                     if not any(tx):
                         tx[0] = 1
-                cases.append({"k": "match", "a": a, "d": d, "kk": k, "ws": ws, "tx": tx, "src": src})
+                pre, st, gaps = schedule(d, len(ws) + k, plain=rng.random() < 0.3)
+                cases.append({"k": "match", "a": a, "d": d, "kk": k, "ws": ws, "tx": tx, "pre": pre, "st": st,
+                              "gaps": gaps, "mode": mode, "src": src})
     for name in (names if thorough else HW_SUBSET[:17] + ["CRC12_UMTS", "CRC12_DECT", "CRC16_EN_13757", "CRC10_GSM"]):
         match_cases(live[name], name, 3)
     for _ in range(250 if thorough else 60):
         match_cases(_rand_algo(rng, 32 if thorough else 12), "rand", 3)
+    # the recorded witness of C16-even-polynomial-false-match and a few more even polynomials
+    for a in ([8, 6, 255, False, False, 0], [1, 0, 0, False, False, 0], [16, 0x1020, 0xffff, True, True, 0xffff],
+              [5, 0x14, 0x1f, True, False, 3], [12, 0x80e, 0, False, True, 0xfff]):
+        match_cases(a, "rand", 3)
     # malformed
     for _ in range(300 if thorough else 60):
         a = _rand_algo(rng, 12)
@@ -279,8 +350,40 @@ def py_trailer(a, d, k, crc):
     return [_rev(x, d) for x in t] if rin else t
 
 
-def run_impl(c):
+def _unexpected(e):
+    """an exception class the model never predicts: encoded so that it shows up as a disagreement"""
+    return [-9, sum(map(ord, type(e).__name__))]
+
+
+def _build(c, alg):
+    """Parameters through one of the public paths (translated: Algorithm.__call__, Parameters.__init__, .algorithm)"""
     from amaranth.lib.crc import Parameters
+    via, d = c.get("via", 0), c["d"]
+    if c.get("dflt"):
+        assert d == 8
+        return (alg(), Parameters(alg), alg().algorithm())[via]
+    if via == 1:
+        return Parameters(alg, d)
+    if via == 2:
+        return alg(d).algorithm(d)
+    return alg(d)
+
+
+def match_cycles(c, t):
+    words = c["ws"] + t
+    cs = [list(x) for x in c.get("pre", [])]
+    st = c.get("st", 0)
+    if st == 1:
+        cs.append([True, False, 0])
+    gaps = c.get("gaps", [])
+    for i, x in enumerate(words):
+        cs += [[False, False, x]] * (gaps[i] if i < len(gaps) else 0)
+        cs.append([i == 0 and st == 0, True, x])
+    return cs
+
+
+def run_impl(c):
+    from amaranth.lib.crc import Parameters, Algorithm, Processor
     k = c["k"]
     if k == "table_len":
         live = _live_catalog()
@@ -297,35 +400,67 @@ def run_impl(c):
                 p.compute(CHECK_MSG), p.residue(), e["check"]]
     if k == "reflect":
         return [Parameters._reflect(c["x"], c["n"])]
+    if k == "typeerr":
+        sub = c["sub"]
+        good = dict(crc_width=8, polynomial=7, initial_crc=0, reflect_input=False, reflect_output=False, xor_output=0)
+        try:
+            if sub == "proc_algo":
+                Processor(Algorithm(**good))
+            elif sub == "proc_int":
+                Processor(8)
+            elif sub == "float_width":
+                Algorithm(**{**good, "crc_width": 8.0})
+            elif sub == "float_dw":
+                Algorithm(**good)(8.0)
+            elif sub == "str_poly":
+                Algorithm(**{**good, "polynomial": "7"})
+            return [0]
+        except Exception as e:
+            return [-3] if type(e).__name__ == "TypeError" else _unexpected(e)
     a = c["a"]
     try:
         alg = _algo(a)
-    except ValueError:
-        return [-1]
-    if k == "residue":
-        return [alg(8).residue()]
-    d = c["d"]
+    except Exception as e:
+        return [-1] if type(e).__name__ == "ValueError" else _unexpected(e)
     try:
-        p = alg(d)
-    except ValueError:
-        return [-2]
-    if k in ("compute", "williams"):
-        try:
-            return [1, p.compute(c["ws"])]
-        except ValueError:
-            return [0]
-    if k == "matrices":
-        f, g = p._matrices()
-        return [len(f), len(g)] + [b for r in f for b in r] + [b for r in g for b in r]
-    if k == "hw":
-        return _simulate(p, c["cs"])
-    if k == "match":
-        crc = p.compute(c["ws"])
-        t = [x ^ m for x, m in zip(py_trailer(a, d, c["kk"], crc), c["tx"])]
-        words = c["ws"] + t
-        cs = [[i == 0, True, x] for i, x in enumerate(words)]
-        out = _simulate(p, cs)
-        return t + out + [1]
+        p = _build(c, alg) if "d" in c else alg(8)
+    except Exception as e:
+        return [-2] if type(e).__name__ == "ValueError" else _unexpected(e)
+    d = c.get("d", 8)
+    try:
+        if k == "residue":
+            return [p.residue()]
+        if k in ("compute", "williams"):
+            try:
+                return [1, p.compute(c["ws"])]
+            except Exception as e:
+                return [0] if type(e).__name__ == "ValueError" else _unexpected(e)
+        if k == "matrices":
+            f, g = p._matrices()
+            return [len(f), len(g)] + [b for r in f for b in r] + [b for r in g for b in r]
+        if k == "proc":
+            pr = Processor(p)
+            f, g = pr._matrix_f, pr._matrix_g
+            return ([len(pr.crc), len(pr.data), len(pr.start), len(pr.valid), len(pr.match_detected),
+                     pr._initial_crc.value, len(pr._initial_crc), pr._residue, len(f), len(g)]
+                    + [b for r in f for b in r] + [b for r in g for b in r])
+        if k == "hw":
+            return _simulate(p, c["cs"])
+        if k == "rtl":
+            tr = _simulate(p, c["cs"])
+            rows = [0, tr[0], tr[1]]
+            for i in range(len(c["cs"])):
+                rows += [0, tr[2 * i], tr[2 * i + 1]] + [0, tr[2 * i + 2], tr[2 * i + 3]] * 2
+            return rows
+        if k == "match":
+            crc = p.compute(c["ws"])
+            t = [x ^ m for x, m in zip(py_trailer(a, d, c["kk"], crc), c["tx"])]
+            out = _simulate(p, match_cycles(c, t))
+            # the verdict of the property text, from the observation: match after the last word iff the trailer is
+            # the message's own CRC
+            return t + out + [int(bool(out[-1]) == (not any(c["tx"])))]
+    except Exception as e:
+        return _unexpected(e)
     raise ValueError(k)
 
 
@@ -338,6 +473,37 @@ def _cs(cs):
     return "[" + "; ".join(f"Cy {blit(s)} {blit(v)} {z(x)}" for s, v, x in cs) + "]"
 
 
+def _rtl_term(c):
+    """RTLIL text of Processor from the real backend -> document of Model/RtlilSem.v + stimulus"""
+    import rtlil_read as R
+    from amaranth.back import rtlil
+    try:
+        dut = _algo(c["a"])(c["d"]).create()
+        text = rtlil.convert(dut, ports=[dut.start, dut.valid, dut.data, dut.crc, dut.match_detected], name="top",
+                             emit_src=False)
+        mods = R.parse(text)
+    except Exception as e:
+        return f"[-1; {sum(map(ord, type(e).__name__))}]"
+    top = mods[0]
+
+    def port(name, kind, width):
+        wn = "\\" + name
+        if wn not in top.windex or top.wires[top.windex[wn]].kind != kind or top.wires[top.windex[wn]].width != width:
+            raise R.RtlilError(f"top module has no {kind} port {name} of width {width}")
+        return top.windex[wn]
+    w, d = c["a"][0], c["d"]
+    st, va, da, clk, rst = (port("start", "input", 1), port("valid", "input", 1), port("data", "input", d),
+                            port("clk", "input", 1), port("rst", "input", 1))
+    crc, md = port("crc", "output", w), port("match_detected", "output", 1)
+    obs = f"[Some ([], {crc}%nat, {w}); Some ([], {md}%nat, 1)]"
+    init = "[" + "; ".join(f"({i}%nat, 0)" for i in (st, va, da, clk, rst)) + "]"
+    steps = []
+    for s_, v_, x in c["cs"]:
+        steps += [f"[({st}%nat, {int(s_)}); ({va}%nat, {int(v_)}); ({da}%nat, {z(x)})]", f"[({clk}%nat, 1)]",
+                  f"[({clk}%nat, 0)]"]
+    return f"k_rtl {R.coq_doc(mods)}\n {obs} {init}\n [" + "; ".join(steps) + "]"
+
+
 def coq_term(c):
     k = c["k"]
     if k == "table_len":
@@ -348,6 +514,12 @@ def coq_term(c):
         return f"k_reflect {z(c['x'])} {z(c['n'])}"
     if k == "residue":
         return f"(if algo_ok {_a(c['a'])} then k_residue {_a(c['a'])} else [-1])"
+    if k == "proc":
+        return f"k_proc {_a(c['a'])} {z(c['d'])}"
+    if k == "rtl":
+        return _rtl_term(c)
+    if k == "typeerr":
+        return "k_typeerr"
     if k == "compute":
         return f"k_compute {_a(c['a'])} {z(c['d'])} {zlist(c['ws'])}"
     if k == "williams":
@@ -357,7 +529,8 @@ def coq_term(c):
     if k == "hw":
         return f"k_hw {_a(c['a'])} {z(c['d'])} {_cs(c['cs'])}"
     if k == "match":
-        return f"k_match {_a(c['a'])} {z(c['d'])} {z(c['kk'])} {zlist(c['ws'])} {zlist(c['tx'])}"
+        return (f"k_match {_a(c['a'])} {z(c['d'])} {z(c['kk'])} {zlist(c['ws'])} {zlist(c['tx'])} "
+                f"{_cs(c.get('pre', []))} {z(c.get('st', 0))} {zlist(c.get('gaps', []))}")
     raise ValueError(k)
 
 
@@ -365,19 +538,29 @@ def classify(c):
     k = c["k"]
     if k in ("table", "table_len", "reflect"):
         return k
+    if k == "typeerr":
+        return "typeerr/" + c["sub"]
+    if k == "rtl":
+        return "rtl/" + c.get("src", "rand")
     src = c.get("src", "")
     grp = src if src in ("tiny", "rand", "malformed") else "catalog"
     if k == "match":
-        mode = "ok" if not any(c["tx"]) else ("bit" if sum(bin(x).count("1") for x in c["tx"]) == 1 else "rand")
+        mode = c.get("mode") or ("ok" if not any(c["tx"]) else "rand")
         par = "evenpoly" if c["a"][1] % 2 == 0 else "oddpoly"
-        return f"match/{grp}/{mode}/{par}"
+        st = ("start+word", "start-alone", "no-start")[c.get("st", 0)]
+        sch = st + ("+junk" if c.get("pre") else "") + ("+gaps" if any(c.get("gaps", [])) else "")
+        return f"match/{grp}/{mode}/{par}/{sch}"
     if k == "hw":
         nv = sum(1 for s, v, x in c["cs"] if v)
         ns = sum(1 for s, v, x in c["cs"] if s)
+        if c.get("sc"):
+            return f"hw/{grp}/{c['sc']}"
         return f"hw/{grp}/{'restart' if ns else 'nostart'}/{'idle' if nv < len(c['cs']) else 'dense'}"
     if k in ("compute", "williams"):
         a, d = c["a"], c["d"]
         rel = "d<w" if d < a[0] else ("d=w" if d == a[0] else "d>w")
+        if c.get("dflt"):
+            rel = "default-width/" + ("algo()", "Parameters(algo)", "algo().algorithm()")[c.get("via", 0)]
         return f"{k}/{grp}/{rel}"
     return f"{k}/{grp}"
 
@@ -388,13 +571,31 @@ def nontrivial(c, obs):
         return False
     if k in ("compute", "williams"):
         return obs[0] == 1 and len(c["ws"]) > 0
-    if k == "hw":
+    if k in ("hw", "rtl"):
         return any(v for s, v, x in c["cs"])
     return True
+
+
+def known_finding(c, obs, model):
+    """C16-even-polynomial-false-match: only a codeword run with an even polynomial and a trailer that is NOT the
+    message's CRC, where the whole observed trace (trailer words, crc and match_detected at every edge) is exactly what
+    the faithful model computes and the only difference is the verdict of the property text (model = spec says 1,
+    observed 0 because match_detected was raised)."""
+    if c["k"] != "match" or c["a"][1] % 2 != 0 or not any(c["tx"]):
+        return None
+    if not (isinstance(obs, list) and isinstance(model, list) and len(obs) == len(model) and len(obs) >= 3):
+        return None
+    if obs[:-1] == model[:-1] and model[-1] == 1 and obs[-1] == 0 and obs[-2] == 1:
+        return "C16-even-polynomial-false-match"
+    return None
 
 
 def explain(c):
     return ("model answer encodes: compute [1, crc] / [0] ValueError on a word / [-1] Algorithm ValueError / [-2] "
             "Parameters ValueError; hw: crc, match_detected before the first edge and after each edge; match: trailer "
-            "words, the same trace, then 1 iff the final match_detected has the expected value")
+            "words, the same trace, then the verdict of the property text (1 = match_detected after the last word iff the "
+            "trailer is the message's own CRC; the model column states the property, the observed column is computed "
+            "from the simulation); proc: widths of crc/data/start/valid/match_detected, initial value and its width, "
+            "residue, matrices; rtl: per settle (inputs set / clk=1 / clk=0) a status (0 = converged) then crc, "
+            "match_detected, from the emitted RTLIL under Model/RtlilSem.v vs the simulator; [-3] TypeError; [-9, n] an exception class the model does not predict")
 
